@@ -51,7 +51,8 @@ TReset ==
   /\ rootv' = [n \in Names |-> [b \in {Genesis} |-> NoVer]]
   /\ cont' = [n \in Names |-> <<>>]
   /\ tver' = [n \in Names |-> <<>>]
-  /\ ever' = <<>> /\ delp' = 0 /\ dedup' = <<>>
+  /\ ever' = <<>> /\ wl' = <<>> /\ delp' = 0 /\ dedup' = <<>>
+  /\ use' = [hf |-> Ev.cfg.hf, df |-> Ev.cfg.df]
   /\ base' = 0 /\ ckroot' = NoVer /\ pend' = 0
   /\ rcache' = [n \in Names |-> NoVer]
   /\ w' = Closed
@@ -65,7 +66,8 @@ TCommit == /\ Ev.e = "Commit"
            /\ Ev.hashok = TRUE
 TCheckpoint == Ev.e = "Checkpoint" /\ Checkpoint(VerOf(Ev.t), Ev.target)
 TDeleteHist == Ev.e = "DeleteHist" /\ DeleteHist
-TReopen == Ev.e = "Reopen" /\ ReopenAny
+\* the Options the database is re-opened with are logged; the layout must stay the persisted one
+TReopen == Ev.e = "Reopen" /\ (IF Has(Ev, "req") THEN ReopenWith([hf |-> Ev.req.hf, df |-> Ev.req.df]) ELSE ReopenAny)
 
 ReadOK(r) ==
   \E b \in {VerOf(r.b)} : \E obs \in {Observed(r)} :
